@@ -182,7 +182,7 @@ def run_corpus(ctx):
         acc = a["outcome"] == ("ret", None) and any(t.startswith("A:") for t in a["trace"])
         exp = e["expect_accepted"]
         bad = None
-        if a["outcome"][0] in ("timeout", "died", "stackoverflow", "crash"):
+        if a["outcome"][0] in ("timeout", "died", "stackoverflow", "crash", "memory"):
             bad = "does not end normally: %r" % (a["outcome"],)
         elif exp is None:
             if not (a["outcome"][0] == "panic" and str(a["outcome"][1]).startswith("parse:")):
